@@ -68,6 +68,13 @@ class Mem:
     def __init__(self, name, ty, opt='req', default=None):
         self.name, self.ty, self.opt, self.default = name, ty, opt, default
 
+    def rust(self, is_struct):
+        """the Rust spelling the property prescribes: snake case for components, hyphens replaced for alternatives"""
+        import re
+        if not is_struct:
+            return self.name.replace('-', '_')
+        return re.sub(r'(?<=[a-z0-9])([A-Z])', r'_\1', self.name).replace('-', '_').lower()
+
     def text(self):
         s = f"{self.name} {self.ty.text()}"
         if self.opt == 'optional':
@@ -147,6 +154,18 @@ def shapes(tier):
                 members = [Mem('ack', P('BOOLEAN'), 'default', 'TRUE'), Mem('n1', P('INTEGER'), 'default' if alld else 'req', '5' if alld else None)]
                 t = Ty(cont, members=members)
                 out.append((f"C02 {cont} named {asn} with DEFAULT components{' only' if alld else ''}", f"M DEFINITIONS AUTOMATIC TAGS ::= BEGIN {asn} ::= {t.text()} END", {'top': t, 'defs': [(rust, t)]}))
+    # component identifiers that resemble the names the compiler uses internally (synthetic extension-group members
+    # `ext_group_<first>`, hoisted `Inner` / `Anonymous` / `Item` types): they are ordinary components
+    for nm in ('ext-group-id', 'extGroupInfo', 'ext-group-1', 'inner', 'anonymous-item', 'item'):
+        for cont in ('seq', 'set', 'choice'):
+            for opt in (('req',) if cont == 'choice' else ('req', 'optional', 'default')):
+                for inner in ('prim', 'anon'):
+                    ity = P('INTEGER') if inner == 'prim' else Ty('seq', members=[Mem('k', P('NULL'))])
+                    if inner == 'anon' and opt == 'default':
+                        continue
+                    members = [Mem('first', P('BOOLEAN'), 'req' if cont == 'choice' else 'optional'), Mem(nm, ity, opt, '5' if opt == 'default' else None), Mem('last', P('NULL'))]
+                    t = Ty(cont, members=members)
+                    out.append((f"C02 {cont} member named {nm} [{inner}] {opt}", f"M DEFINITIONS AUTOMATIC TAGS ::= BEGIN R ::= SEQUENCE {{ z BOOLEAN }} T ::= {t.text()} END", {'top': t}))
     # COMPONENTS OF copies the ROOT components of the referenced type only (X.680 25.5): nothing of what follows its marker
     for cont, kw in (('seq', 'SEQUENCE'), ('set', 'SET')):
         for adds, label in (("x BOOLEAN, y OCTET STRING OPTIONAL", 'additions'), ("[[ 2: g1 BOOLEAN, g2 NULL OPTIONAL ]]", 'an addition group'), ("", 'no additions')):
@@ -316,7 +335,7 @@ class Matcher:
             self.match_type(it.fields[0].ty, ty, it.name, where + '.0', allow_hoist=False)
 
     def match_members(self, it, fields, members, where, is_struct):
-        if [f.name for f in fields] != [m.name for m in members]:
+        if [f.name for f in fields] != [m.rust(is_struct) for m in members]:
             self.fail('members', f"{where}: {it.name} has members {[f.name for f in fields]}, source has {[m.name for m in members]}")
             return
         for f, m in zip(fields, members):
